@@ -45,8 +45,20 @@ fn val(rng: &mut Rng) -> Vec<u8> {
 }
 
 /// a dominated value as a peer could send it (register / field stamps ≤ outer stamp)
+/// Lamport times at which a narrower integer type / a signed or float conversion would change
+/// the clock arithmetic (`update` = max + 1 is taken just below, at and above them)
+const EDGE_TIMES: [u64; 8] = [(1 << 31) - 1, (1 << 32) - 3, (1 << 32) - 1, 1 << 32, (1 << 53) - 1, 1 << 53, (1 << 63) - 2, 1 << 63];
+
 fn peer_value(rng: &mut Rng, tmax: u64) -> MRv {
-    let t = rng.below(tmax + 1);
+    let t = if rng.chance(1, 14) {
+        out_of_band_count();
+        *rng.pick(&EDGE_TIMES)
+    } else if tmax > 64 && rng.chance(2, 3) {
+        // once the clock is large, stay around it (just below / at / above the local clock)
+        tmax - rng.below(9)
+    } else {
+        rng.below(tmax + 1)
+    };
     let r = rng.range(2, 3);
     if rng.chance(1, 2) {
         let tomb = rng.chance(1, 4);
@@ -69,6 +81,11 @@ fn peer_value(rng: &mut Rng, tmax: u64) -> MRv {
         }
         MRv { crdt: MCrdt::H(h), vc: None, exp: None, t, r, rf: None }
     }
+}
+
+static EDGE_DRAWN: std::sync::atomic::AtomicU64 = std::sync::atomic::AtomicU64::new(0);
+fn out_of_band_count() {
+    EDGE_DRAWN.fetch_add(1, std::sync::atomic::Ordering::Relaxed);
 }
 
 struct Node {
@@ -322,6 +339,7 @@ pub fn run(a: &Args) {
             crate::c08boot::boot_history(&mut out, &mut r, b % 2 == 0).await;
         }
     });
+    out.count_n("remote:stamp-at-integer-width-boundary(2^31,2^32,2^53,2^63)", EDGE_DRAWN.load(std::sync::atomic::Ordering::Relaxed));
     mailbox_coverage(&mut out);
     // coverage of the Command enum through the replicated actor / state
     {
